@@ -416,6 +416,26 @@ func execSS(p *Plan, run *core.Run) {
 	rb, _ := rec.MarshalBinary()
 	if string(rb) != string(want) {
 		run.Violate(comp+".Recover", "wrong-secret", "holders %v of (t=%d,n=%d): recovered %x, dealt %x", alive, p.T, p.N, rb, want)
+		return
+	}
+	// the combiner wipes the recovered secret once it has used it: the value it was handed is
+	// its own, not one of the shares
+	before := make([][]byte, len(got))
+	for i := range got {
+		before[i], _ = got[i].Value.MarshalBinary()
+	}
+	rec.SetUint64(0)
+	run.Fault("history:recovered-secret-wiped")
+	for i := range got {
+		if now, _ := got[i].Value.MarshalBinary(); string(now) != string(before[i]) {
+			run.Violate(comp+".Recover", "modifying-a-returned-value-changes-an-operand", "wiping the secret returned by Recover(t=%d) changed the value of share %d that went into it", p.T, i)
+			return
+		}
+	}
+	if again, err := secretsharing.Recover(uint(p.T), got); err != nil {
+		run.Violate(comp+".Recover", "second-recover-fails", "%v", err)
+	} else if ab, _ := again.MarshalBinary(); string(ab) != string(want) {
+		run.Violate(comp+".Recover", "second-recover-differs", "recovering again from the same shares after the first result was wiped gives %x, dealt %x", ab, want)
 	}
 }
 
